@@ -373,7 +373,55 @@ class Program:
                 mm = self.lookup_method(self.classes[qb], fn.attr)
                 if mm:
                     return [mm.qualname]
+            # receiver typed by a parameter / local annotation naming an in-repo class
+            if isinstance(base, ast.Name):
+                out2: List[str] = []
+                for cq in self._annotated_classes(f, base.id):
+                    mm = self.lookup_method(self.classes[cq], fn.attr)
+                    if mm:
+                        out2.append(mm.qualname)
+                    for sc in self.subclasses(cq):
+                        if fn.attr in sc.methods:
+                            out2.append(sc.methods[fn.attr].qualname)
+                if out2:
+                    return out2
+            # last resort: the method name is defined by very few in-repo classes
+            cands = self._methods_by_name().get(fn.attr, [])
+            if 1 <= len(cands) <= 3 and not fn.attr.startswith("__") and fn.attr not in _COMMON_EXTERNAL_METHODS:
+                return list(cands)
         return []
+
+    def _annotated_classes(self, f: FuncInfo, var: str) -> List[str]:
+        import re as _re
+        anns: List[ast.AST] = []
+        a = f.node.args  # type: ignore[attr-defined]
+        for x in a.posonlyargs + a.args + a.kwonlyargs:
+            if x.arg == var and x.annotation is not None:
+                anns.append(x.annotation)
+        for n in ast.walk(f.node):
+            if isinstance(n, ast.AnnAssign) and isinstance(n.target, ast.Name) and n.target.id == var:
+                anns.append(n.annotation)
+        out: List[str] = []
+        for an in anns:
+            text = an.value if isinstance(an, ast.Constant) and isinstance(an.value, str) else ast.unparse(an)
+            for tok in _re.findall(r"[A-Za-z_][\w.]*", text):
+                try:
+                    q = self.resolve_expr(f.module, ast.parse(tok, mode="eval").body)
+                except SyntaxError:
+                    q = None
+                if q and q in self.classes and q not in out:
+                    out.append(q)
+        return out
+
+    def _methods_by_name(self) -> Dict[str, List[str]]:
+        idx = getattr(self, "_mbn", None)
+        if idx is None:
+            idx = {}
+            for c in self.classes.values():
+                for mn, mf in c.methods.items():
+                    idx.setdefault(mn, []).append(mf.qualname)
+            self._mbn = idx
+        return idx
 
     def _callable_targets(self, q: Optional[str]) -> List[str]:
         if not q:
@@ -524,6 +572,14 @@ def _refine_by_guards(use: ast.Name, vals: Set[Any]) -> Set[Any]:
         child = p
         p = getattr(p, "_parent", None)
     return vals
+
+
+_COMMON_EXTERNAL_METHODS = {"get", "items", "values", "keys", "update", "append", "extend", "copy", "pop", "add", "remove", "sort", "join",
+                            "format", "strip", "split", "replace", "lower", "upper", "startswith", "endswith", "execute", "close", "read",
+                            "write", "fetchone", "fetchall", "fetchdf", "register", "unregister", "exists", "mkdir", "validate", "visit",
+                            "check", "cast", "map", "apply", "rename", "drop", "astype", "sql", "to_csv", "index", "count", "insert", "clear",
+                            "setdefault", "discard", "union", "intersection", "isnull", "any", "all", "tolist", "parse", "match", "search",
+                            "sub", "group", "encode", "decode", "load", "dump", "loads", "dumps", "open", "name", "is_included"}
 
 
 def enclosing_function(node: ast.AST) -> Optional[ast.AST]:
